@@ -614,14 +614,23 @@ class Interp:
                     return v
         # promoted bodies of methods: the reference names the impl by its type (`Writer::close::promoted[0]`,
         # `<T as Trait>::m::promoted[0]`), the body is printed under `<impl at file:line>`
-        m_ = re.search(r"([A-Za-z_][A-Za-z0-9_]*)::(promoted\[\d+\])\s*$", name)
+        plain = re.sub(r"::<[^<>]*(?:<[^<>]*>[^<>]*)*>", "", name)      # drop generic argument lists (`f::<P, K>::promoted[0]`)
+        m_ = re.search(r"([A-Za-z_][A-Za-z0-9_]*|\{closure#\d+\})::(promoted\[\d+\])\s*$", plain)
         if m_:
             meth, prom = m_.group(1), m_.group(2)
+            outer = None
+            if meth.startswith("{closure"):
+                mo = re.search(r"([A-Za-z_][A-Za-z0-9_]*)::\{closure#\d+\}::promoted", plain)
+                outer = mo.group(1) if mo else None
             cands = []
             for cname, body in self.prog.consts.items():
-                cs = path_segments(cname)
-                if len(cs) >= 2 and cs[-1] == prom and cs[-2] == meth:
+                cplain = re.sub(r"::<[^<>]*(?:<[^<>]*>[^<>]*)*>", "", cname)
+                cs = path_segments(cplain)
+                if len(cs) >= 2 and cs[-1] == prom and cs[-2] == meth and (outer is None or (len(cs) >= 3 and cs[-3] == outer)):
                     cands.append((cname, body, cs))
+            if segs is None or len(cands) <= 1:
+                pass
+            segs = path_segments(plain) if not plain.startswith("<") else segs
             if segs and len(cands) > 1:
                 # same module prefix (segments before the type / impl segment)
                 pre = [x for x in segs[:-3]]
